@@ -180,7 +180,18 @@ func (s *rapidSpeller) ASCII(str string) []model.Tok {
 			run = run[:0]
 		}
 	}
+	empty := func() {
+		// an empty quoted run: one more token, no character
+		if !s.noSplit && rapid.IntRange(0, 15).Draw(s.t, "emptyRun") == 15 {
+			flush()
+			for k := rapid.IntRange(1, 3).Draw(s.t, "emptyRuns"); k > 0; k-- {
+				out = append(out, model.Tok{Text: `""`, Kind: "str"})
+			}
+			s.note("spell:empty-run")
+		}
+	}
 	for i := 0; i < len(str); i++ {
+		empty()
 		c := str[i]
 		printable := c >= 32 && c < 127 && c != '"'
 		asCode := !printable || rapid.IntRange(0, 9).Draw(s.t, "asCode") == 9
@@ -199,6 +210,7 @@ func (s *rapidSpeller) ASCII(str string) []model.Tok {
 			s.note("spell:split-run")
 		}
 	}
+	empty()
 	flush()
 	return out
 }
